@@ -48,6 +48,7 @@ type Profile struct {
 	PFalsy        int  // % of non-string primitive leaves given a falsy but present input (0, 0.0, false, the zero time)
 	PBlankCo      int  // % of constant string coercers that return a blank (absent-looking) string
 	PCustomTpl    int  // % of cases run under a user-edited language map whose templates name several parameters (tests carry them through Params)
+	PSameKind     int  // % of string nodes with two or more tests whose tests are all of the kind of the first (Contains twice, Min twice, ...)
 	PLongOneOf    int  // % of built-in tests on strings and numbers that are a OneOf over a long list with no custom message
 	NilBias       bool // whole inputs are re-drawn (up to 10 times) until the implementation reports no issues
 	Repeats       int  // how many times a case is re-run (with reshuffled schema insertion orders and varying pool states)
@@ -271,6 +272,26 @@ func (g *Gen) pt(n *Node) PTSpec {
 func (g *Gen) tests(n *Node) {
 	for i := 0; i < 3 && g.R.P(g.P.PTests); i++ {
 		n.Tests = append(n.Tests, g.test(n))
+	}
+	if g.P.PSameKind > 0 && n.Kind == KString && len(n.Tests) >= 2 && n.Tests[0].Builtin != "" && g.R.Fork(0x5a3e).P(g.P.PSameKind) {
+		// the same kind of test declared several times (each with its own argument): every declaration counts
+		for i := 1; i < len(n.Tests); i++ {
+			if n.Tests[i].Builtin != "" {
+				n.Tests[i].Builtin = n.Tests[0].Builtin
+			}
+		}
+		// ... the first declaration the strictest, the last the most permissive
+		first, last := &n.Tests[0], &n.Tests[len(n.Tests)-1]
+		if last.Builtin == first.Builtin && !first.Not && !last.Not {
+			switch first.Builtin {
+			case "min":
+				first.N, last.N = 6, 0
+			case "max":
+				first.N, last.N = 1, 6
+			case "contains", "prefix", "suffix":
+				first.S, last.S = Pick(g.R.Fork(0x5a3f), []string{"zq", "Hello", "@"}), ""
+			}
+		}
 	}
 }
 
@@ -593,6 +614,7 @@ func ProfileByName(name string) Profile {
 		p.PPtr = 25
 		p.PPT = 5
 		p.PCatch = 30
+		p.PSameKind = 30
 	case "C01s":
 		// what happens at one field (a Catch that fires, a failing test, a panic-free error) next to composite siblings
 		// that carry several tests of their own
@@ -608,6 +630,7 @@ func ProfileByName(name string) Profile {
 		p.PDefault = 15
 		p.NilBias = true
 		p.PSiblings = 60
+		p.PSameKind = 40
 	case "C01d":
 		// values the schema itself places (Default, Catch) at every depth, everything else valid
 		p.PValid = 90
@@ -620,6 +643,7 @@ func ProfileByName(name string) Profile {
 		p.PCatch = 15
 		p.MaxFields = 2
 		p.NilBias = true
+		p.PSameKind = 40
 		p.PRewrite = 70
 		p.PTopSlice = 15
 		p.PSpecialFloat = 35
@@ -637,12 +661,14 @@ func ProfileByName(name string) Profile {
 		p.PCatch = 55
 		p.PTests = 80
 		p.PSlice = 30
+		p.PIssuePath = 12 // a caught test may file its issue elsewhere: it is still the catching node's failure
 	case "C04":
 		p.PAbsent = 45
 		p.PDefault = 35
 		p.PCatch = 10
 		p.PStructIn = 40
 		p.PFalsy = 20
+		p.PPre = 14 // what is absent is decided on the Preprocess function's output, by the rule of the mode
 	case "C09":
 		p.MaxFields = 4
 		p.PStruct = 40
